@@ -105,8 +105,9 @@ impl<const N: usize> Buf<N> {
         Buf { b: [0u8; N], len: 0, overflow: false }
     }
     pub fn as_str(&self) -> &str {
-        // harnesses only write ASCII or whole UTF-8 strings
-        core::str::from_utf8(&self.b[..self.len]).unwrap_or("")
+        // only whole `&str` pieces and `char`s are ever appended, so the prefix is valid UTF-8; skipping the
+        // validation loop keeps std's chunked ASCII scanner out of the formula
+        unsafe { core::str::from_utf8_unchecked(&self.b[..self.len]) }
     }
 }
 impl<const N: usize> fmt::Write for Buf<N> {
